@@ -282,6 +282,19 @@ def check_release(chk, cfg, m, fn):
     for p in paths.enumerate_paths(fn, m):
         if paths.is_assert_fail_path(p):
             continue
+        # a flag cleared by release (a defensive reset of the slot's own bit): it must happen BEFORE the buffer is given back -
+        # once num_free is incremented a sender may claim the slot and send, and a clear after that wipes the new message's flag
+        clr = [k for k, e in enumerate(p.events) if e.kind == "rmw" and _mq_field(e.ptr, fn, m) == "full_flags" and e.extra == "and"]
+        give = [k for k, e in enumerate(p.events) if e.kind == "rmw" and _mq_field(e.ptr, fn, m) == "num_free" and e.extra == "add"]
+        if clr:
+            one_bit = all(strip_casts(p.events[k].val)[0] == "b" and strip_casts(p.events[k].val)[1] == "xor" and
+                          _one_bit_mask(strip_casts(p.events[k].val)[3]) is not None for k in clr)
+            okc = bool(give) and max(clr) < min(give) and one_bit
+            chk.ob("R5.release-clear", "%s path %s" % (tag, "->".join(b.lstrip("%") for b in p.blocks)), okc,
+                   "release clears only its own slot's flag, and before it returns the buffer to the pool" if okc else
+                   "release clears a flag AFTER (or without) returning the buffer to the pool, or clears more than one bit: a sender "
+                   "that claims the freed slot and sends in between has its flag wiped - the message is never received and the queue "
+                   "wedges", p.events[clr[0]].inst.loc, fn.name)
         net = _net_reservation(p, fn, m)
         chk.ob("R2.release", "%s path %s" % (tag, "->".join(b.lstrip("%") for b in p.blocks)), net == 1,
                "release returns exactly one buffer to the pool (net effect %s)" % net, p.ret_inst.loc, fn.name)
@@ -295,6 +308,54 @@ def _one_bit_mask(e):
     return None
 
 
+def _claimed_pointer_takes(p, fn, m):
+    """None if no claimed pointer satisfies the path's conditions (the path is outside the property's scope), a description of a
+    claimed pointer that does, or False if the conditions are not evaluable."""
+    exprs = [c for c, t, i in p.conds]
+    lens = set(x for e_ in exprs for x in paths.subexprs(e_) if x[0] == "ld" and _mq_field(x[1], fn, m) == "msg_len")
+    qls = set(x for e_ in exprs for x in paths.subexprs(e_) if x[0] == "ld" and _mq_field(x[1], fn, m) == "queue_len")
+    offs = set(x for e_ in exprs for x in paths.subexprs(e_) if x[0] == "b" and x[1] == "sub" and
+               paths.contains(x[3], lambda y: y == ("arg", 1)) and paths.contains(x[4], lambda y: y[0] == "ld" and _mq_field(y[1], fn, m) == "basep"))
+    ptr_cmp = [c for c in exprs if paths.contains(c, lambda y: y == ("arg", 1)) and not any(paths.contains(c, lambda y, o=o: y == o) for o in offs)]
+    try:
+        for L in range(1, 33):
+            for ml in list(range(1, 41)) + [64, 255, 4096]:
+                for k in sorted({0, L // 2, L - 1}):
+                    env = {}
+                    for x in lens:
+                        env[x] = ml
+                    for x in qls:
+                        env[x] = L
+                    for x in offs:
+                        env[x] = k * ml
+                    holds = True
+                    for cd in p.conds:
+                        if cd[0] in ptr_cmp:
+                            # a direct comparison of the pointers (msg < basep): false for a claimed buffer
+                            cc = strip_casts(cd[0])
+                            if cc[0] == "icmp" and cc[1] in ("ult", "ugt", "ule", "uge"):
+                                a_is_msg = paths.contains(cc[2], lambda y: y == ("arg", 1))
+                                val = {"ult": False, "ugt": True, "ule": k == 0, "uge": True}[cc[1]] if a_is_msg else \
+                                      {"ult": True, "ugt": False, "ule": True, "uge": k == 0}[cc[1]]
+                                if k == 0 and cc[1] in ("ugt",) and a_is_msg:
+                                    val = False
+                                if k == 0 and cc[1] in ("ult",) and not a_is_msg:
+                                    val = False
+                                if bool(val) != bool(cd[1]):
+                                    holds = False
+                                    break
+                                continue
+                            return False
+                        if not paths.cond_holds(cd, env):
+                            holds = False
+                            break
+                    if holds:
+                        return "depth %d, message size %d, slot %d" % (L, ml, k)
+    except NoValue:
+        return False
+    return None
+
+
 def check_send(chk, cfg, m, fn):
     tag = "%s[%s]" % (fn.name, cfg)
     for p in paths.enumerate_paths(fn, m):
@@ -304,6 +365,18 @@ def check_send(chk, cfg, m, fn):
         ors = [e for e in _events_on(p, fn, m, "full_flags", ("rmw",))]
         ok = len(ors) == 1 and ors[0].extra == "or" and _one_bit_mask(ors[0].val) is not None
         note = ""
+        if not ors:
+            # a path that publishes nothing (a defensive rejection of pointers that are no queue buffers): harmless exactly if no
+            # pointer that messageq_claim can have returned takes it - evaluated for msg = basep + slot * msg_len over every depth
+            # 1..32, slot below it, and message sizes 1..40, 64, 255, 4096
+            w = _claimed_pointer_takes(p, fn, m)
+            if w is None:
+                continue
+            if w is not False:
+                chk.ob("R5.send", pathid, False,
+                       "send returns without publishing for a buffer that claim hands out: %s - the message is never received and the "
+                       "receiver stalls at that slot" % w, p.ret_inst.loc, fn.name)
+                continue
         if not ok and len(ors) == 1 and ors[0].extra == "or":
             # the operand is 1 << slot combined with something else (a mask of the bits that exist, ...): evaluated for every depth
             # 1..32 and every slot below it, under the path's conditions, it must be exactly that one bit
